@@ -15,7 +15,7 @@ ASSUMPTIONS = [
 ]
 
 HOOK_COMMITS = ["aa112f6"]
-FIX_COMMITS = ["536bdea"]
+FIX_COMMITS = ["536bdea", "2163003", "086d718"]
 NOT_YET = {}
 
 CFG = {
@@ -24,6 +24,13 @@ CFG = {
         "level_text": "Theorems about the model: deviation magnitude/sign/reconstruction (ℝ), Distance value/reversal, DevSet cached-extreme invariant for every new/push history, point-cloud length invariant for every history incl. rejected operations, tolerance-map = greatest breakpoint not above x. Model tied to the Rust by a differential run on every check.",
         "level_note": "Trusted: Lean kernel, Mathlib, hand-written model validated by the correspondence run; closest point taken from the implementation (C02); rounding not analysed.",
         "files": ["src/metrology/line_profiles.rs", "src/geom3/mesh/measurement.rs", "src/metrology/dimension.rs", "src/metrology/surface_deviation.rs", "src/geom3/point_cloud.rs", "src/metrology/tolerance_map.rs", "src/common/discrete_domain.rs"],
+        "tol": {"*": 1e-9},
+    },
+    "C17": {
+        "cases": {"quick": 8000, "thorough": 800000},
+        "level_text": "Theorems (every ordered field) about the model of discrete domains and series: every constructor/derivation yields sorted abscissae or an error; interpolation returns knots/blends/nothing outside; slices end exactly at the bounds. Model tied to the Rust by a differential run on every check.",
+        "level_note": "Trusted: Lean kernel, Mathlib, hand-written model validated by the correspondence run (binary searches modelled by their contract); rounding not analysed.",
+        "files": ["src/common/discrete_domain.rs", "src/common/vec_f64.rs", "src/func1/series1.rs"],
         "tol": {"*": 1e-9},
     },
     "C18": {
